@@ -12,7 +12,12 @@
 (*              two independent builds of the same case                    *)
 (*   steps  |-> per executed operation [op, raised, before, after] where   *)
 (*              before/after are snapshots <<action, dims, coords, node    *)
-(*              identities>> of every action that existed before the step  *)
+(*              identities, payloads of those nodes (callable identity,    *)
+(*              args, kwargs rendered by value)>> of every action that     *)
+(*              existed before the step                                    *)
+(* The nodes are described as they are at the END of the case; callable    *)
+(* identities are stable across cases, so names are also compared between  *)
+(* cases (a name stands for one computation, whenever it was built).       *)
 (* TLC evaluates Post on every (case, log).                                *)
 (*                                                                         *)
 (* An operation is [k |-> kind, f |-> callable key, o |-> other action,    *)
@@ -63,6 +68,14 @@ Seconds == IF SecondOps = "all" THEN BinOps \cup UnOps
 OperandCases == {[kind |-> "operands", start |-> s, p |-> <<o>>, q |-> <<>>] : s \in {"A", "A2", "D"}, o \in BinOps \cup UnOps}
            \cup {[kind |-> "operands", start |-> s, p |-> <<o, o2>>, q |-> <<>>] : s \in {"A", "A2", "D"}, o \in BinOps \cup UnOps, o2 \in Seconds}
 
+\* (T) the same parametrised operation twice, from the same receiver, with different parameter values: the first result is
+\*     a pre-existing action when the second is built (v: axis of flatten / stack, internal dimension of expand, a backend kwarg)
+TwiceKinds == {"flatten", "stack", "sum_kw", "expand_i"}
+TwiceCases == {[kind |-> "operands", start |-> s, p |-> <<From(s), Op(k1, "", "", "x", v), From(s), Op(k2, "", "", "x", 1 - v)>>, q |-> <<>>] :
+                  s \in {"A", "A2", "D"}, k1 \in TwiceKinds, k2 \in TwiceKinds, v \in {0, 1}}
+         \cup {[kind |-> "operands", start |-> s, p |-> <<From(s), Op(k, "", "", "x", v), From(s), Op(k, "", "", "x", 1 - v)>>, q |-> <<>>] :
+                  s \in {"A", "A2", "D"}, k \in {"mean_kw", "addc", "concatenate_kw"}, v \in {0, 1}}
+
 \* ======================================================================== post-condition
 Comp(n) == <<n.fid, n.args, n.kwargs, n.inputs>>          \* same callable, same static arguments, same inputs IN THE SAME ORDER (a sequence)
 CollisionKind(a, b) == IF a.fid # b.fid THEN (IF a.fname = "<lambda>" THEN "different_lambdas" ELSE "different_callables_with_equal_name")
@@ -77,11 +90,17 @@ Post(c, r) ==
  \cup (IF c.kind # "operands" /\ Len(r.steps) # 2 * (Len(c.p) + Len(c.q)) THEN {"program_not_executed"} ELSE {})
 
 \* ======================================================================== the two TLC passes
-Generate == JsonSerialize(IOEnv.CASES_FILE, SetToSeq(NameCases) \o SetToSeq(PermCases) \o SetToSeq(SourceCases) \o SetToSeq(OperandCases))
+Generate == JsonSerialize(IOEnv.CASES_FILE, SetToSeq(NameCases) \o SetToSeq(PermCases) \o SetToSeq(SourceCases) \o SetToSeq(OperandCases) \o SetToSeq(TwiceCases))
+\* names are also compared ACROSS cases: G = every node description of the whole run, Amb = names with two computations
 Judge ==
   LET cs == JsonDeserialize(IOEnv.CASES_FILE)
       rs == JsonDeserialize(IOEnv.RESULTS_FILE)
+      G == UNION {SetOf(rs[i].nodes) : i \in {i \in DOMAIN rs : "error" \notin DOMAIN rs[i]}}
+      Amb == {n.name : n \in {n \in G : \E m \in G : m.name = n.name /\ Comp(m) # Comp(n)}}
   IN \A i \in DOMAIN cs :
-       LET bad == IF "error" \in DOMAIN rs[i] THEN {"harness_error"} ELSE Post(cs[i], rs[i])
+       LET bad == IF "error" \in DOMAIN rs[i] THEN {"harness_error"}
+                  ELSE Post(cs[i], rs[i])
+                       \cup {"NameInjective:" \o CollisionKind(x[1], x[2]) :
+                               x \in {y \in {a \in SetOf(rs[i].nodes) : a.name \in Amb} \X G : y[1].name = y[2].name /\ Comp(y[1]) # Comp(y[2])}}
        IN bad = {} \/ PrintT("B|" \o ToString(i) \o "|" \o ToString(bad))
 =============================================================================
